@@ -339,7 +339,14 @@ func VerifC06_TwoChildren() {
 	// strategy asks for
 	if rt.Bool("the-first-child-request-is-refused") {
 		rt.Cover("two-children/first-request-refused")
-		w.Srv.ArmFault(0, env.FaultInternal, "", false)
+		kind := env.FaultInternal
+		if rt.Bool("refused-as-422-invalid") {
+			// (an immutable field, a failed CRD validation: still no reason to
+			// answer with another verb - an InPlace child is never deleted)
+			rt.Cover("two-children/first-request-refused-as-invalid")
+			kind = env.FaultInvalid
+		}
+		w.Srv.ArmFault(0, kind, "", false)
 	}
 	err := ManageChildren(w.Dyn, verifStrategy{v1alpha1.ChildUpdateMethod(method)}, parent, observed, desired, &ApplyOptions{Strategy: ApplyStrategyDynamicApply})
 	anyErr := false
